@@ -135,7 +135,7 @@ def run(ctx):
                             "a longer suffix listed later in the same route is never compared, so the outcome depends on the order "
                             "suffixes are written in" % first_only[0])
     ctx.floor("R2", "suffix tests in the route handler", len(ews), 1)
-    loops = [cfg.natural_loop(e) for e in cfg.back_edges()]
+    loops = cfg.loops_by_header()
     for bb, tm in ews:
         a = [norm(x) for x in T.call_args(bb)]
         rp = resolve_path(P, body, a[0])
@@ -178,8 +178,10 @@ def run(ctx):
                 if d[0] == "discr" and d[1][0] == "call" and str(d[1][1]).endswith("::next"):
                     starts.extend(v for (_, v) in discr_edges(cfg, u, 1) if v in inner)
         skips = []
+        fetches = tuple(u for u, tmu in body.calls() if u in inner and (callee_name(tmu) or "").endswith("::next"))
         for s0 in starts:
-            between = {x for x in cfg.reachable_from(s0, blocked=(bb,)) if x in inner and bb in cfg.reachable_from(x)}
+            # (a fetch ends the stretch: what lies behind the test, up to the next fetch, is not "between")
+            between = {x for x in cfg.reachable_from(s0, blocked=(bb,) + fetches) if x in inner and bb in cfg.reachable_from(x, blocked=fetches)}
             for x in between:
                 tx = body.blocks[x]["term"]
                 if tx["k"] == "switch" and len({v for v in cfg.succ[x] if body.blocks[v]["term"] is None or body.blocks[v]["term"]["k"] != "unreachable"}) > 1:
@@ -211,6 +213,40 @@ def run(ctx):
             if "rv" in s and len(s["p"]) == 1 and "Option<usize>" in body.local_ty(s["p"][0]) and cfg.dominates(sbb, bb):
                 repl.append(bb)
         okk = ordv == "Greater" and best_first and repl and all(edge_dominated(cfg, te, bb) for bb in repl)
+        if not okk and ordv == "Greater" and best_first:
+            # the same fact without the nesting: every assignment of Some(..) to a best-so-far variable is reached only through the
+            # edge "there is no best yet" or through the true edge of this comparison
+            sets = [(bb, s_["p"][0]) for bb, idx, s_ in body.stmts() if "rv" in s_ and len(s_["p"]) == 1 and s_["rv"]["k"] == "agg" and
+                    s_["rv"].get("variant") == "Some" and body.local_ty(s_["p"][0]).startswith("std::option::Option<") and
+                    any(bb in l for l in loops)]
+            best_locals = {l for _, l in sets}
+            for _bb, _i, _s in body.stmts():       # `best = move tmp` after `tmp = Some(..)`
+                if "rv" in _s and len(_s["p"]) == 1 and _s["rv"]["k"] == "use" and op_place(_s["rv"]["op"]) and \
+                        op_place(_s["rv"]["op"])[0] in {l for _, l in sets} and len(op_place(_s["rv"]["op"])) == 1:
+                    best_locals.add(_s["p"][0])
+
+            def roots_in_best(pl, bb0, depth=0):
+                if pl[0] in best_locals:
+                    return True
+                if depth > 3:
+                    return False
+                st0 = single_def_stmt(T, {"c": (pl[0],)}, bb0, len(body.blocks[bb0]["stmts"]))
+                if st0 is not None and st0["rv"]["k"] in ("use", "ref"):
+                    src = op_place(st0["rv"]["op"]) if st0["rv"]["k"] == "use" else tuple(st0["rv"]["place"])
+                    if src:
+                        return roots_in_best(tuple(x for x in src if x != "*"), st0["_at"][0], depth + 1)
+                return False
+            none_edges = []
+            for b2, t2 in body.terms():
+                if t2["k"] != "switch":
+                    continue
+                st2 = single_def_stmt(T, t2["discr"], b2, len(body.blocks[b2]["stmts"]))
+                if st2 is not None and st2["rv"]["k"] == "discr" and roots_in_best(tuple(x for x in st2["rv"]["place"] if x != "*"), st2["_at"][0]):
+                    none_edges.extend(discr_edges(cfg, b2, 0))
+            allowed = set(te) | set(none_edges)
+            free = cfg.reachable_avoiding_edges(0, allowed)
+            okk = bool(sets) and bool(none_edges) and all(bb not in free for bb, _ in sets)
+            repl = [bb for bb, _ in sets]
         ctx.check(okk, "R2", "replace-best-only-if-candidate-longer:cmp(best,candidate)==%s" % ordv, ctx.where(body),
                   "the best route may be replaced only on the true edge of compare_longest_suffix(best, candidate) == Greater "
                   "(Greater = candidate has more labels); found == %s, best-first: %s, replacements under the test: %d" % (ordv, best_first, len(repl)))
